@@ -218,7 +218,7 @@ func init() {
 		return mkSym(types.Bool, tAnd(termOf(args[0]), termOf(args[1])))
 	}
 	harnessAPI["symOr"] = func(fr *frame, args []value) value {
-		return mkSym(types.Bool, tNot(tAnd(tNot(termOf(args[0])), tNot(termOf(args[1])))))
+		return mkSym(types.Bool, tOr(termOf(args[0]), termOf(args[1])))
 	}
 	harnessAPI["mLess"] = func(fr *frame, args []value) value {
 		return mkSym(types.Bool, tCmp("<", args[0].(symm).t, args[1].(symm).t))
